@@ -228,7 +228,7 @@ func runC13Split(c c13Split) error {
 	rep := func(in []string, name string) (string, error) {
 		out := filepath.Join(dir, name)
 		var rerr error
-		if perr := vh.Try(func() { rerr = report(in, c.Type, out, 0, c.Buckets) }); perr != nil {
+		if perr := vh.Try(func() { rerr = runReport(in, c.Type, out, 0, c.Buckets) }); perr != nil {
 			return "", fmt.Errorf("report -type=%s panics: %v", c.Type, perr)
 		}
 		if rerr != nil {
@@ -289,10 +289,10 @@ func runC13Split(c c13Split) error {
 
 	// ---- encode
 	outS, outU := filepath.Join(dir, "enc.split"), filepath.Join(dir, "enc.union")
-	if err := encode(files, c.To, outS); err != nil {
+	if err := runEncode(files, c.To, outS); err != nil {
 		return fmt.Errorf("%s: encode: %v", desc, err)
 	}
-	if err := encode([]string{unionFile}, c.To, outU); err != nil {
+	if err := runEncode([]string{unionFile}, c.To, outU); err != nil {
 		return fmt.Errorf("union: encode: %v", err)
 	}
 	rs, err := readResults(outS, c.To, len(union)+1)
@@ -332,7 +332,7 @@ func runC13Split(c c13Split) error {
 		}
 		canon := func(in []string, name string) ([]string, error) {
 			out := filepath.Join(dir, name)
-			if err := encode(in, "json", out); err != nil {
+			if err := runEncode(in, "json", out); err != nil {
 				return nil, err
 			}
 			b, err := os.ReadFile(out)
